@@ -133,6 +133,114 @@ fn run_replay_file(exe: &Path, prop: &str, file: &Path, timeout: Duration) -> (O
     }
 }
 
+/// every JSON array below `case` whose elements can be dropped without making the case ill-formed
+fn list_paths(v: &Value, path: &mut Vec<String>, out: &mut Vec<Vec<String>>) {
+    match v {
+        Value::Object(m) => {
+            for (k, x) in m {
+                path.push(k.clone());
+                if let Value::Array(a) = x {
+                    let droppable = ["ops", "prefix", "tail", "script", "hot_init", "items", "pre", "toks"].contains(&k.as_str());
+                    if droppable && !a.is_empty() {
+                        out.push(path.clone());
+                    }
+                    if k == "threads" {
+                        for (i, t) in a.iter().enumerate() {
+                            if t.as_array().map_or(false, |t| t.len() > 1) {
+                                let mut p2 = path.clone();
+                                p2.push(i.to_string());
+                                out.push(p2);
+                            }
+                        }
+                    }
+                }
+                list_paths(x, path, out);
+                path.pop();
+            }
+        }
+        Value::Array(a) => {
+            for (i, x) in a.iter().enumerate() {
+                path.push(i.to_string());
+                list_paths(x, path, out);
+                path.pop();
+            }
+        }
+        _ => {}
+    }
+}
+
+fn at_mut<'a>(v: &'a mut Value, path: &[String]) -> Option<&'a mut Value> {
+    let mut cur = v;
+    for k in path {
+        cur = match cur {
+            Value::Object(m) => m.get_mut(k)?,
+            Value::Array(a) => a.get_mut(k.parse::<usize>().ok()?)?,
+            _ => return None,
+        };
+    }
+    Some(cur)
+}
+
+/// Delta-debug a case that kills the process: drop list elements as long as a fresh process still
+/// dies (or reports a violation) on it.  Bounded by `budget` replays.
+fn shrink_crash(exe: &Path, prop: &str, file: &Path, budget: usize) {
+    let mut doc: Value = match std::fs::read(file).ok().and_then(|b| serde_json::from_slice(&b).ok()) {
+        Some(v) => v,
+        None => return,
+    };
+    let tmp = file.with_extension("shrink.json");
+    let mut runs = 0usize;
+    let t0 = Instant::now();
+    let mut still_fails = |cand: &Value, runs: &mut usize| -> bool {
+        *runs += 1;
+        if std::fs::write(&tmp, serde_json::to_vec(cand).unwrap()).is_err() {
+            return false;
+        }
+        let (code, _) = run_replay_file(exe, prop, &tmp, Duration::from_secs(60));
+        !matches!(code, Some(0) | Some(2))
+    };
+    let mut progress = true;
+    while progress && runs < budget && t0.elapsed() < Duration::from_secs(240) {
+        progress = false;
+        let mut paths = Vec::new();
+        list_paths(&doc, &mut Vec::new(), &mut paths);
+        for p in paths {
+            let len = match at_mut(&mut doc, &p).and_then(|v| v.as_array().map(|a| a.len())) {
+                Some(l) => l,
+                None => continue,
+            };
+            // halves first, then single elements from the back
+            let mut chunk = (len / 2).max(1);
+            while chunk >= 1 && runs < budget {
+                let mut i = 0;
+                loop {
+                    let cur_len = at_mut(&mut doc, &p).and_then(|v| v.as_array().map(|a| a.len())).unwrap_or(0);
+                    if i >= cur_len || cur_len <= if p.iter().any(|k| k == "threads") { 1 } else { 0 } || runs >= budget {
+                        break;
+                    }
+                    let mut cand = doc.clone();
+                    if let Some(Value::Array(a)) = at_mut(&mut cand, &p) {
+                        let end = (i + chunk).min(a.len());
+                        a.drain(i..end);
+                    }
+                    if still_fails(&cand, &mut runs) {
+                        doc = cand;
+                        progress = true;
+                    } else {
+                        i += chunk;
+                    }
+                }
+                if chunk == 1 {
+                    break;
+                }
+                chunk /= 2;
+            }
+        }
+    }
+    let _ = std::fs::remove_file(&tmp);
+    let _ = std::fs::write(file, serde_json::to_string_pretty(&doc).unwrap());
+}
+
 fn parent(prop: &str, tier: Tier, seed: u64, jobs: usize) -> i32 {
     let t0 = Instant::now();
     let def = match checks::find(prop) {
@@ -216,7 +324,13 @@ fn parent(prop: &str, tier: Tier, seed: u64, jobs: usize) -> i32 {
                                     Some(0) => inconclusive.push(format!("shard {} died ({:?}) but its in-flight case passes on replay ({})", c.idx, st, rp.display())),
                                     Some(2) => inconclusive.push(format!("shard {} died ({:?}); replay inconclusive: {}", c.idx, st, outp.trim())),
                                     Some(1) => violations.push((prop.to_string(), outp.lines().next().unwrap_or("").to_string(), rp)),
-                                    other => violations.push((prop.to_string(), format!("process died ({:?}) while running this case, and dies again on replay ({:?}): crash in safe code", st, other), rp)),
+                                    other => {
+                                        // minimise the crashing case (bounded), keeping "a fresh process dies on it"
+                                        if violations.len() < 2 {
+                                            shrink_crash(&exe, prop, &rp, 150);
+                                        }
+                                        violations.push((prop.to_string(), format!("process died ({:?}) while running this case, and dies again on replay ({:?}): crash in safe code", st, other), rp))
+                                    }
                                 }
                             }
                             Err(_) => inconclusive.push(format!("shard {} died ({:?}) without an in-flight case", c.idx, st)),
